@@ -200,6 +200,16 @@ class LibsModel:
                 return AV(ty='generator', elem=AV(ty='tuple', elts=[el, later(el)]), deps=d, maybe_empty=True,
                           combos_of=(qual.split('.')[-1], args[0]))
             return AV(ty='generator', elem=AV(ty='tuple', elem=el), deps=d, maybe_empty=True)
+        if qual == 'itertools.groupby' and args:
+            # groups CONSECUTIVE items with equal keys; complete groups only when the input is sorted by the same key
+            x = args[0]
+            item = self.iter_item(interp, st, x, node, None)
+            keyf = args[1] if len(args) > 1 else kwargs.get('key')
+            kv = interp.call_value(keyf, [item], {}, frame, st, node) if keyf is not None else item
+            presorted = bool(x.sorted) or (isinstance(node, ast.Call) and node.args and isinstance(node.args[0], ast.Call)
+                                           and norm_text(node.args[0].func) == 'sorted')
+            return AV(ty='generator', elem=AV(ty='tuple', elts=[kv, AV(ty='generator', elem=item, deps=d)]), deps=d, maybe_empty=True,
+                      groupby_runs=None if presorted else True)
         if qual == 'itertools.count':
             return AV(ty='count', start=args[0] if args else const(0), deps=d)
         if qual == 'itertools.starmap' and len(args) == 2:
